@@ -78,6 +78,13 @@ def single_faults(keys, n, wide):
     for d in keys:
         if d != wide:
             out.append(("add_extra", d))
+    if wide is None:
+        for d in keys:
+            if F.POOL[d][3] is int:
+                for i in range(n):
+                    out.append(("dup_text", i, d))  # the same label combination again, that label given as text
+    else:
+        out.append(("extra_wide_column",))
     for d in keys:
         if len(F.POOL[d][2]) > 1 and d != wide:
             out.append(("drop_column", d))
@@ -121,6 +128,13 @@ def apply_faults(keys, faults):
             lab = dict(recs[0][0])
             lab[f[1]] = unknown_item(f[1])
             rows.append([lab, 55.5, -1])
+        elif kind == "dup_text":
+            lab, v = recs[f[1]]
+            lab = dict(lab, _dup=True)
+            lab[f[2]] = str(lab[f[2]])
+            rows.append([lab, v + 1000.0, f[1]])
+        elif kind == "extra_wide_column":
+            structural.add(("extra_wide_column",))
         elif kind == "drop_column":
             structural.add(("drop_column", f[1]))
         elif kind == "second_value_column":
@@ -136,7 +150,20 @@ def classify(keys, rows, structural, flags, header, wide):
     """-> ('raise' | 'open' | 'ok', expected ndarray or None)"""
     allow_missing, allow_extra = flags
     if structural:
+        if structural == {("extra_wide_column",)} and allow_extra:
+            return "open", None  # a surplus COLUMN is not a row with an unknown item: the statement leaves it open
         return "raise", None
+    # a label of a typed dimension given as text is that item once converted to the declared type
+    def canon(k, v):
+        dt = F.POOL[k][3]
+        if dt is not None and isinstance(v, str) and dt is not str:
+            try:
+                return dt(v)
+            except ValueError:
+                return v
+        return v
+
+    rows = [({k: canon(k, v) for k, v in lab.items()}, val) for lab, val in rows]
     known = lambda lab: all(lab[k] in F.POOL[k][2] for k in keys)
     extras = [r for r in rows if not known(r[0])]
     good = [r for r in rows if known(r[0])]
@@ -192,6 +219,9 @@ def frame_for(keys, rows, structural, lay):
                 df = df.reset_index()
             cols = [c for c in df.columns if c in names or (lay["header"] == "items-only" and c == f"c{keys.index(k)}")]
             df = df.drop(columns=cols)
+        elif s[0] == "extra_wide_column":
+            df = df.copy()
+            df["bird"] = 1.5
         else:
             df = df.copy()
             df["second"] = 1.5
@@ -291,7 +321,7 @@ def units(tier, seed):
     for keys in tables:
         n = len(F.records(keys))
         for li, lay in enumerate(layouts_for(keys)):
-            out.append(dict(kind="singles", keys=keys, lay=lay, entries=["from_df", "set_values_from_df", "csv"] + (["excel"] if li in (0, 1) or tier == "thorough" else [])))
+            out.append(dict(kind="singles", keys=keys, lay=lay, entries=["from_df", "set_values_from_df", "csv"] + (["excel"] if li in (0, 1, 6) or tier == "thorough" else [])))
             if lay["wide"] is None and (tier == "thorough" or (li == 0 and keys in (["T", "S"], ["N"])) or (li == 3 and keys == ["N", "Y"])) and n <= (6 if tier == "quick" else 12):
                 sf = single_faults(keys, n, None)
                 for a in range(len(sf)):
